@@ -642,6 +642,26 @@ class Exec(Interp):
                 if fr == frame and bi in body and finite and all(bi in dom.get(p, ()) for p in back):
                     why = "iterator next() in bb%d on a finite iterator" % bi
                     break
+            # (a') a local holding a slice whose length strictly decreases on every back edge (lengths are >= 0)
+            if why is None:
+                J = inputs[h]
+                for cell, v in J.cells.items():
+                    if not (isinstance(cell, tuple) and len(cell) == 2 and cell[0] == frame and isinstance(v, Ref) and v.cell is not None):
+                        continue
+                    qh = self.read(J, v.cell, v.path, ("loopq",))
+                    if not isinstance(qh, Seq):
+                        continue
+                    dec = True
+                    for p in back:
+                        B = edges[(p, h)]
+                        bv = B.cells.get(cell)
+                        qb = self.read(B, bv.cell, bv.path, ("loopqb",)) if isinstance(bv, Ref) and bv.cell is not None else None
+                        if not (isinstance(qb, Seq) and B.entails(B.term(qb.len).sub(B.term(qh.len)).addc(1))):
+                            dec = False
+                            break
+                    if dec:
+                        why = "the slice held in _%s gets shorter on every back edge" % (cell[1],)
+                        break
             # (b) decreasing measure between two head symbols / a head symbol and an invariant symbol
             if why is None:
                 J = inputs[h]
